@@ -32,4 +32,7 @@ EXTRAS = [
     lambda rep, fb, tier: __import__("vf.rules.methodrules", fromlist=["x"]).rule_broadcast_validated(rep, fb),
     lambda rep, fb, tier: __import__("vf.rules.methodrules", fromlist=["x"]).rule_option_shifts(rep, fb),
     lambda rep, fb, tier: __import__("vf.rules.methodrules", fromlist=["x"]).rule_record_by_name(rep, fb),
+    lambda rep, fb, tier: __import__("vf.rules.lints", fromlist=["x"]).rule_chain_broken(rep, fb),
+    lambda rep, fb, tier: __import__("vf.rules.lints", fromlist=["x"]).rule_unused_result(rep, fb),
+    lambda rep, fb, tier: __import__("vf.rules.lints", fromlist=["x"]).rule_distinct_arms(rep, fb),
 ]
